@@ -108,8 +108,8 @@ func prop1(k int, slot uint64) CReq { return CReq{Kind: "prop", Keys: []int{k}, 
 // th gives up.
 func withCtx(r CReq, mode string) CReq { r.Cancel = mode; return r }
 func cancelOf(th, idx int) CReq        { return CReq{Kind: "cancel", Target: []int{th, idx}} }
-func sign1(k int) CReq              { return CReq{Kind: "sign", Keys: []int{k}} }
-func signsN(keys ...int) CReq       { return CReq{Kind: "signs", Keys: keys} }
+func sign1(k int) CReq                 { return CReq{Kind: "sign", Keys: []int{k}} }
+func signsN(keys ...int) CReq          { return CReq{Kind: "signs", Keys: keys} }
 
 type callRec struct {
 	thread, idx int
@@ -753,10 +753,10 @@ func concFinish(run *ev.Run, results []shardResult, err error, rule string) int 
 		"executions":          execs,
 		"bound_completed":     boundDone,
 		"scenarios_with_all_interleavings_explored": allDone,
-		"max_points":          maxPoints,
-		"deadlocks":           deadlocks,
-		"uncontrolled":        uncontrolled,
-		"per_scenario":        per,
+		"max_points":   maxPoints,
+		"deadlocks":    deadlocks,
+		"uncontrolled": uncontrolled,
+		"per_scenario": per,
 	}
 	return run.Finish()
 }
